@@ -1,1 +1,210 @@
-pub fn placeholder() {}
+//! Seeded generators and the "decode with every entry point, then do everything a user can do with the
+//! value" driver used by the C01 checks (in-process under catch_unwind, or in a child process).
+use crate::abs::*;
+use crate::machine::*;
+use serde_json::{json, Value as J};
+
+/// splitmix64: small, seedable, no dependency
+pub struct Rng(pub u64);
+impl Rng {
+    pub fn next(&mut self) -> u64 {
+        self.0 = self.0.wrapping_add(0x9e3779b97f4a7c15);
+        let mut z = self.0;
+        z = (z ^ (z >> 30)).wrapping_mul(0xbf58476d1ce4e5b9);
+        z = (z ^ (z >> 27)).wrapping_mul(0x94d049bb133111eb);
+        z ^ (z >> 31)
+    }
+    pub fn below(&mut self, n: usize) -> usize {
+        if n == 0 {
+            0
+        } else {
+            (self.next() % n as u64) as usize
+        }
+    }
+    pub fn byte(&mut self) -> u8 {
+        (self.next() & 0xff) as u8
+    }
+}
+
+/// every byte-level decoding entry point: (label, type, registry, api)
+pub fn entry_points() -> Vec<(&'static str, &'static str, &'static str)> {
+    let mut v: Vec<(&'static str, &'static str, &'static str)> = vec![];
+    for ty in [
+        "Header", "ProtectedHeader", "CoseSignature", "CoseSign", "CoseSign1", "CoseMac", "CoseMac0", "CoseEncrypt", "CoseEncrypt0",
+        "CoseRecipient", "CoseKey", "CoseKeySet", "ClaimsSet", "PartyInfo", "SuppPubInfo", "CoseKdfContext", "Label", "Value", "Timestamp",
+    ] {
+        v.push((ty, "", "slice"));
+    }
+    for ty in ["CoseSign", "CoseSign1", "CoseMac", "CoseMac0", "CoseEncrypt", "CoseEncrypt0"] {
+        v.push((ty, "", "tagged"));
+    }
+    v.push(("ProtectedHeader", "", "bstr"));
+    for reg in ["Algorithm", "CwtClaimName", "HeaderParameter", "EllipticCurve"] {
+        v.push(("RegisteredLabelWithPrivate", reg, "slice"));
+    }
+    for reg in ["CoapContentFormat", "KeyType", "KeyOperation", "HeaderParameter", "KeyParameter", "CborTag"] {
+        v.push(("RegisteredLabel", reg, "slice"));
+    }
+    v
+}
+
+/// the follow-up events available on the held value that the documentation does NOT declare panicking
+pub fn followups(m: &Machine) -> Vec<J> {
+    let aad = jbytes(&[0xaa, 0xbb]);
+    let pl = jbytes(&[0x55]);
+    let vr = json!({"ok": true, "bytes": []});
+    let dr = json!({"ok": false, "bytes": [1]});
+    let mut ev = vec![json!({"ev": "encode", "api": "vec"}), json!({"ev": "clone_eq"})];
+    match &m.mem {
+        Obj::Sign1(x) => {
+            ev.push(json!({"ev": "encode", "api": "tagged"}));
+            ev.push(json!({"ev": "tbs", "m": "tbs_data", "aad": aad}));
+            ev.push(json!({"ev": "verify", "m": "verify_signature", "aad": aad, "res": vr}));
+            if x.payload.is_none() {
+                ev.push(json!({"ev": "tbs", "m": "tbs_detached_data", "pl": pl, "aad": aad}));
+                ev.push(json!({"ev": "verify", "m": "verify_detached_signature", "pl": pl, "aad": aad, "res": vr}));
+            }
+        }
+        Obj::Sign(x) => {
+            ev.push(json!({"ev": "encode", "api": "tagged"}));
+            for w in 0..x.signatures.len().min(4) {
+                ev.push(json!({"ev": "tbs", "m": "tbs_data", "which": w, "aad": aad}));
+                ev.push(json!({"ev": "verify", "m": "verify_signature", "which": w, "aad": aad, "res": vr}));
+                if x.payload.is_none() {
+                    ev.push(json!({"ev": "verify", "m": "verify_detached_signature", "which": w, "pl": pl, "aad": aad, "res": dr}));
+                }
+            }
+        }
+        Obj::Mac(x) => {
+            ev.push(json!({"ev": "encode", "api": "tagged"}));
+            if x.payload.is_some() {
+                ev.push(json!({"ev": "verify", "m": "verify_tag", "aad": aad, "res": vr}));
+            }
+        }
+        Obj::Mac0(x) => {
+            ev.push(json!({"ev": "encode", "api": "tagged"}));
+            if x.payload.is_some() {
+                ev.push(json!({"ev": "verify", "m": "verify_tag", "aad": aad, "res": dr}));
+            }
+        }
+        Obj::Encrypt(x) => {
+            ev.push(json!({"ev": "encode", "api": "tagged"}));
+            if x.ciphertext.is_some() {
+                ev.push(json!({"ev": "verify", "m": "decrypt", "aad": aad, "res": vr}));
+            }
+        }
+        Obj::Encrypt0(x) => {
+            ev.push(json!({"ev": "encode", "api": "tagged"}));
+            if x.ciphertext.is_some() {
+                ev.push(json!({"ev": "verify", "m": "decrypt", "aad": aad, "res": dr}));
+            }
+        }
+        Obj::Recipient(x) => {
+            if x.ciphertext.is_some() {
+                ev.push(json!({"ev": "verify", "m": "decrypt", "ctx": "MacRecipient", "aad": aad, "res": vr}));
+            }
+        }
+        Obj::Prot(_) => ev.push(json!({"ev": "encode", "api": "bstr"})),
+        _ => {}
+    }
+    ev
+}
+
+pub struct Outcome {
+    pub accepted: bool,
+    /// (what, event) of the first non-returning / failing step
+    pub bad: Option<(String, J)>,
+    pub followups: usize,
+}
+
+/// decode `bytes` with one entry point; on success run every non-documented-panic follow-up
+pub fn decode_and_follow(ty: &str, reg: &str, api: &str, bytes: &[u8]) -> Outcome {
+    let mut m = Machine::new();
+    m.wire = Some(bytes.to_vec());
+    let dec = json!({"ev": "decode", "api": api, "ty": ty, "reg": reg});
+    let o = m.step(&dec);
+    match o["kind"].as_str() {
+        Some("err") => return Outcome { accepted: false, bad: None, followups: 0 },
+        Some("ok") => {}
+        Some("panic") => return Outcome { accepted: false, bad: Some(("decode-panicked".into(), dec)), followups: 0 },
+        _ => return Outcome { accepted: false, bad: Some((format!("harness: {}", o["err"]), dec)), followups: 0 },
+    }
+    let evs = followups(&m);
+    let n = evs.len();
+    for e in evs {
+        let o = m.step(&e);
+        match o["kind"].as_str() {
+            Some("ok") => {}
+            // a decoded value always re-encodes (its protected headers carry their bytes)
+            Some("err") if e["ev"] == "encode" => return Outcome { accepted: true, bad: Some(("accepted-value-does-not-encode".into(), e)), followups: n },
+            Some("err") => {}
+            Some("panic") => return Outcome { accepted: true, bad: Some(("follow-up-panicked".into(), e)), followups: n },
+            _ => return Outcome { accepted: true, bad: Some((format!("harness: {}", o["err"]), e)), followups: n },
+        }
+    }
+    // dropping the value is part of what must not crash
+    m.mem = Obj::None;
+    Outcome { accepted: true, bad: None, followups: n }
+}
+
+/// bit / byte / splice / truncate / extend mutations
+pub fn mutate(rng: &mut Rng, seed: &[u8], other: &[u8]) -> Vec<u8> {
+    let mut b = seed.to_vec();
+    let n = 1 + rng.below(3);
+    for _ in 0..n {
+        match rng.below(9) {
+            0 if !b.is_empty() => {
+                let i = rng.below(b.len());
+                b[i] ^= 1 << rng.below(8);
+            }
+            1 if !b.is_empty() => {
+                let i = rng.below(b.len());
+                b[i] = rng.byte();
+            }
+            2 if !b.is_empty() => {
+                let i = rng.below(b.len());
+                b.remove(i);
+            }
+            3 => {
+                let i = rng.below(b.len() + 1);
+                b.insert(i, rng.byte());
+            }
+            4 if !b.is_empty() => {
+                let k = rng.below(b.len());
+                b.truncate(k);
+            }
+            5 if !other.is_empty() => {
+                let i = rng.below(b.len() + 1);
+                let (s, e) = {
+                    let s = rng.below(other.len());
+                    (s, s + rng.below(other.len() - s + 1))
+                };
+                let tail = b.split_off(i);
+                b.extend_from_slice(&other[s..e]);
+                b.extend_from_slice(&tail);
+            }
+            6 if !b.is_empty() => {
+                // boundary values in a head position
+                let i = rng.below(b.len());
+                b[i] = [0x17, 0x18, 0x19, 0x1a, 0x1b, 0x1f, 0x3b, 0x5f, 0x7f, 0x9f, 0xbf, 0xc2, 0xc3, 0xf9, 0xfb, 0xff][rng.below(16)];
+            }
+            7 if b.len() >= 2 => {
+                let i = rng.below(b.len() - 1);
+                b.swap(i, i + 1);
+            }
+            _ => {
+                // huge declared length without data
+                let mj = [0x5b, 0x7b, 0x9b, 0xbb, 0x5a, 0x9a][rng.below(6)];
+                let i = rng.below(b.len() + 1);
+                let mut ins = vec![mj];
+                for _ in 0..(if mj & 1 == 1 { 8 } else { 4 }) {
+                    ins.push(0xff);
+                }
+                let tail = b.split_off(i);
+                b.extend_from_slice(&ins);
+                b.extend_from_slice(&tail);
+            }
+        }
+    }
+    b
+}
